@@ -383,6 +383,14 @@ def run(project, chk):
     org = Origins(project, fi, cfg)
     PNT = f"{PAR}._parse_number_token"
 
+    def peel(t):
+        """tokens[k] seen through str(...) (the tokens are strings already) and through a leading slice tokens[:n][k]"""
+        while t is not None and t[0] == "call" and t[1] == "builtins.str" and len(t[2]) == 1 and not t[3]:
+            t = t[2][0]
+        if t is not None and t[0] == "item" and isinstance(t[1], tuple) and t[1][0] == "index" and t[1][2][0] == "expr" and str(t[1][2][1]).replace(" ", "") in (":3", ":4", "0:3", "0:4"):
+            t = ("item", t[1][1], t[2])
+        return t
+
     def is_component(o, k):
         """int(round(_parse_number_token(tokens[k], component=True)))"""
         if not (o[0] == "call" and o[1] == "builtins.int" and len(o[2]) == 1):
@@ -396,7 +404,7 @@ def run(project, chk):
         args = list(p[2])
         kws = dict(p[3])
         comp = kws.get("component", args[1] if len(args) > 1 else ("const", True))
-        tok = args[0] if args else None
+        tok = peel(args[0] if args else None)
         return comp == ("const", True) and tok is not None and tok[0] == "item" and tok[2] == k
 
     n_rgb = 0
@@ -429,10 +437,10 @@ def run(project, chk):
         # rgba(): rgba_to_rgb((r, g, b, a), background=...)
         if o[0] == "call" and o[1] == f"{CONV}.rgba_to_rgb" and o[2] and o[2][0][0] == "tuple" and len(o[2][0][1]) == 4:
             r4 = o[2][0][1]
-            if all(v[0] == "call" and v[1] == "builtins.int" for v in r4[:3]) and r4[0][2] and r4[0][2][0][0] == "call" and r4[0][2][0][2] and r4[0][2][0][2][0][0] == "call" and r4[0][2][0][2][0][2] and r4[0][2][0][2][0][2][0][0] == "item":
+            if all(v[0] == "call" and v[1] == "builtins.int" for v in r4[:3]) and r4[0][2] and r4[0][2][0][0] == "call" and r4[0][2][0][2] and r4[0][2][0][2][0][0] == "call" and r4[0][2][0][2][0][2] and (peel(r4[0][2][0][2][0][2][0]) or ("?",))[0] == "item":
                 n_rgb += 1
                 a = r4[3]
-                ok_a = a[0] == "call" and a[1] == PNT and a[2] and a[2][0][0] == "item" and a[2][0][2] == 3 and dict(a[3]).get("component", a[2][1] if len(a[2]) > 1 else None) == ("const", False)
+                ok_a = a[0] == "call" and a[1] == PNT and a[2] and (peel(a[2][0]) or ("?",))[0] == "item" and peel(a[2][0])[2] == 3 and dict(a[3]).get("component", a[2][1] if len(a[2]) > 1 else None) == ("const", False)
                 ok = all(is_component(v, k) for k, v in enumerate(r4[:3])) and ok_a
                 chk.check(ok, "N3", fi.short, norm_text(node.ast), loc, "rgba(): (int(round(component k)) for k = 0..2, alpha = token 3 scaled as alpha) handed to the compositor",
                           how=f"origins: {[oshow(v)[:50] for v in r4]}", message=f"rgba() components / alpha are not scaled as CSS defines: {[oshow(v)[:60] for v in r4]}")
